@@ -80,6 +80,17 @@ fn gen_c17(rng: &mut Rng, thorough: bool, out: &mut Cases) {
                 }
             }
         }
+        // the same conversions from four threads at once (values that alternate between neighbouring units)
+        for base in [5u128, 4294, (1u128 << 31) - 3] {
+            let l: Vec<u128> = vec![base * unit + 1, (base + 1) * unit + 2, base * unit + unit - 1, (base + 1) * unit, base * unit, (base + 2) * unit + 7];
+            let mut w = W::new();
+            w.bool(op == 1);
+            w.n(l.len() as u128);
+            for v in &l {
+                w.n(*v);
+            }
+            out.push(5, w);
+        }
         // a call far outside the guarded range (the last units of the u64 range), then small in-range values
         for y in [u64::MAX as u128, u64::MAX as u128 - unit + 1, u64::MAX as u128 / unit * unit, (u64::MAX as u128 / unit - 1) * unit] {
             for x in [0u128, 1, unit - 1, unit, 448_383, 448_384, 551_615, 551_616] {
@@ -228,6 +239,31 @@ pub fn gen_inplace(rng: &mut Rng, n: usize, out: &mut Cases) {
         if i % 3 == 0 {
             items.swap(1, 2);
         }
+        if sh && i % 4 == 2 {
+            // storage mode: k junk bytes + a stored message first, then (same buffer) prefixes of a stored message whose
+            // payload EMBEDS a stored record at offset k, cut behind the embedded record
+            let inner = gen_message(rng, &MsgOpts { storage: Some(true), dict: false, max_args: 1, max_blob: 4, ..MsgOpts::default() });
+            if let Ok(ib) = std::panic::catch_unwind(|| inner.as_bytes()) {
+                if ib.len() < 70 {
+                    let k = 16 + 4 + 4 + rng.below(3) as usize; // storage header + standard header + message id (+ pad)
+                    let mut body = rng.bytes(k - 24);
+                    body.extend_from_slice(&ib);
+                    body.extend_from_slice(&rng.bytes(8));
+                    let outer = Message {
+                        storage_header: Some(StorageHeader { timestamp: DltTimeStamp { seconds: 3, microseconds: 4 }, ecu_id: "OUT".into() }),
+                        header: StandardHeader { version: 1, endianness: Endianness::Big, has_extended_header: false, message_counter: 1, ecu_id: None, session_id: None, timestamp: None, payload_length: (4 + body.len()) as u16 },
+                        extended_header: None,
+                        payload: PayloadContent::NonVerbose(7, body),
+                    };
+                    if let Ok(ob) = std::panic::catch_unwind(|| outer.as_bytes()) {
+                        let mut junked = vec![0x2eu8; k];
+                        junked.extend_from_slice(&bb);
+                        let cut = (k + ib.len()).max(junked.len()).min(ob.len() - 1);
+                        items = vec![(0, junked), (ob.len() - cut + 1, ob[..cut].to_vec()), (0, ob.clone())];
+                    }
+                }
+            }
+        }
         let mut w = W::new();
         w.bool(sh);
         w.n(items.len() as u128);
@@ -248,6 +284,12 @@ pub fn gen_orphan_headers(rng: &mut Rng, n: usize, out: &mut Cases) {
             Err(_) => continue,
         };
         let mut buf = if i % 2 == 0 { gen_junk(rng) } else { vec![] };
+        if i % 5 == 4 {
+            // a storage header cut off after 4..15 bytes (a record whose writer died), directly followed by records
+            buf.extend_from_slice(b"DLT\x01");
+            let k = rng.below(12) as usize;
+            buf.extend_from_slice(&rng.bytes(k));
+        }
         for _ in 0..(1 + i % 3) {
             if i % 4 >= 2 {
                 // a byte-identical copy of the message's own storage header (a logger that wrote it twice)
@@ -1023,6 +1065,37 @@ fn gen_c06(rng: &mut Rng, thorough: bool, out: &mut Cases) {
 }
 
 fn gen_c09(rng: &mut Rng, thorough: bool, out: &mut Cases) {
+    // id sets beyond every 8- and 16-bit count (255, 256, 65535, 65536, 70001 distinct ids) against messages without
+    // extended header: dropped exactly when the declared total exceeds the number of selected ids
+    for (k, nids) in [255usize, 256, 65535, 65536, 70001].iter().enumerate() {
+        if !thorough && (k == 2 || k == 4) {
+            continue; // (the model's set construction is quadratic: one 65536-id configuration in the quick tier)
+        }
+        let ids: Vec<String> = (0..*nids).map(|j| if j < 65536 { format!("{:04X}", j) } else { format!("z{:03X}", j - 65536) }).collect();
+        for (which, delta) in [(0usize, 1i64), (0, 0), (1, 1), (1, -1)] {
+            if !thorough && *nids > 60000 && !(which == 0 && delta == 1) {
+                continue;
+            }
+            let mut o = MsgOpts { kind: Some(PKind::NonVerbose), max_blob: 4, dict: false, ..MsgOpts::default() };
+            o.storage = Some(k % 2 == 0);
+            let mut m = gen_message(rng, &o);
+            m.extended_header = None;
+            m.header.has_extended_header = false;
+            let f = DltFilterConfig {
+                min_log_level: None,
+                app_ids: if which == 0 { Some(ids.clone()) } else { None },
+                ecu_ids: None,
+                context_ids: if which == 1 { Some(ids.clone()) } else { None },
+                app_id_count: if which == 0 { *nids as i64 + delta } else { 0 },
+                context_id_count: if which == 1 { *nids as i64 + delta } else { 0 },
+            };
+            let mut w = W::new();
+            w.msg(&m);
+            w.filter(&f);
+            w.b(&gen_suffix(rng));
+            out.push(26, w);
+        }
+    }
     let n = if thorough { 200_000 } else { 12_000 };
     for i in 0..n {
         let mut o = msg_opts_for(rng, i);
@@ -1092,6 +1165,17 @@ fn gen_c09(rng: &mut Rng, thorough: bool, out: &mut Cases) {
 }
 
 pub fn gen_signal_type(rng: &mut Rng, allow_fp: bool) -> TypeInfo {
+    let mut t = gen_signal_type_plain(rng, allow_fp);
+    // the flags a signal type may carry travel with the argument unchanged
+    if rng.chance(1, 6) {
+        t.has_variable_info = true;
+    }
+    if rng.chance(1, 8) {
+        t.has_trace_info = true;
+    }
+    t
+}
+fn gen_signal_type_plain(rng: &mut Rng, allow_fp: bool) -> TypeInfo {
     let kind = loop {
         let k = gen_kind(rng);
         if allow_fp || !matches!(k, TypeInfoKind::SignedFixedPoint(_) | TypeInfoKind::UnsignedFixedPoint(_)) {
@@ -1455,6 +1539,21 @@ fn gen_c02(rng: &mut Rng, thorough: bool, out: &mut Cases) {
     // decoding: dialect, malformed, mutated, random inputs in both storage modes
     let n = if thorough { 300_000 } else { 20_000 };
     let mut ins = vec![];
+    {
+        // orphaned, duplicated and cut-off storage headers in front of stored messages (with and without junk)
+        let mut tmp = Cases::new();
+        gen_orphan_headers(rng, if thorough { 600 } else { 120 }, &mut tmp);
+        for l in tmp.lines {
+            if let Some(rest) = l.strip_prefix("8 ") {
+                // "8 <sh> <filter none> <bytes>": reuse the bytes for the reference decoder
+                let toks = crate::wire::parse_toks(rest);
+                let mut r = crate::wire::R::new(&toks);
+                let sh = r.bool();
+                let _ = r.opt_filter();
+                ins.push((sh, r.b()));
+            }
+        }
+    }
     dialect_inputs(rng, n, &mut ins);
     hostile_inputs(rng, n, &mut ins);
     for (sh, bs) in ins {
@@ -1726,6 +1825,29 @@ fn gen_c19(rng: &mut Rng, thorough: bool, out: &mut Cases) {
         w.b(&s);
         out.push(3, w);
     }
+    // the ids a statistics collector is handed (storage header, standard header, extended header) for streams whose
+    // id fields hold arbitrary bytes: interior NULs, invalid UTF-8, no terminator
+    for i in 0..(if thorough { 3000 } else { 400 }) {
+        let sh = i % 4 != 0;
+        let mut stream = vec![];
+        for _ in 0..(1 + i % 3) {
+            let mut ins = vec![];
+            dialect_inputs(rng, 1, &mut ins);
+            let (_, bs) = ins.pop().unwrap();
+            if sh {
+                stream.extend_from_slice(b"DLT\x01");
+                stream.extend_from_slice(&rng.bytes(8));
+                let idb: Vec<u8> = (0..4).map(|_| *rng.pick(&[0x41u8, 0x42, 0x00, 0xc3, 0xa9, 0xff, 0x80, 0xc4, 0x20])).collect();
+                stream.extend_from_slice(&idb);
+            }
+            stream.extend_from_slice(&bs);
+        }
+        let mut w = W::new();
+        w.bool(sh);
+        w.n(0);
+        w.b(&stream);
+        out.push(33, w);
+    }
     // a buffer that ends inside an id field, with junk in front of the storage header
     gen_junkcut(rng, if thorough { 150 } else { 20 }, out);
     // the 4-byte ids of messages obey the same rule: parse messages whose ids are arbitrary bytes
@@ -1920,6 +2042,45 @@ fn gen_c14(rng: &mut Rng, thorough: bool, out: &mut Cases) {
     }
     // the same argument bytes read in both byte orders, one after the other
     gen_flip_sequences(rng, if thorough { 3000 } else { 300 }, out);
+    // all 256 header-type bytes once more with a filter that has an ECU-id set (containing the ids used), with and
+    // without storage header: what is decoded must not depend on a filter that lets the message pass
+    for sh in [false, true] {
+        for b in 0..=255u8 {
+            let mut v = vec![];
+            if sh {
+                v.extend_from_slice(b"DLT\x01");
+                v.extend_from_slice(&[1, 0, 0, 0, 2, 0, 0, 0]);
+                v.extend_from_slice(b"STOR");
+            }
+            let o = v.len();
+            v.extend_from_slice(&[b, 0x11, 0, 0]);
+            if b & 4 != 0 {
+                v.extend_from_slice(b"ECU1");
+            }
+            if b & 8 != 0 {
+                v.extend_from_slice(&[0, 0, 0, 9]);
+            }
+            if b & 0x10 != 0 {
+                v.extend_from_slice(&[0, 0, 1, 0]);
+            }
+            if b & 1 != 0 {
+                v.extend_from_slice(&[0x40, 0x00, 0x41, 0x50, 0x50, 0x00, 0x43, 0x54, 0x58, 0x00]);
+            }
+            v.extend_from_slice(&[1, 2, 3, 4, 5, 6, 7, 8]);
+            let l = (v.len() - o) as u16;
+            v[o + 2] = (l >> 8) as u8;
+            v[o + 3] = l as u8;
+            let f = DltFilterConfig {
+                min_log_level: None,
+                app_ids: None,
+                ecu_ids: Some(vec!["ECU1".into(), "STOR".into(), "ECU".into()]),
+                context_ids: None,
+                app_id_count: 0,
+                context_id_count: 0,
+            };
+            push_parse(out, 8, sh, &Some(f), &v);
+        }
+    }
     // type-info words through the ordinary pipeline: boundary words and a seeded sample
     // (the exhaustive comparison is the ti-sweep)
     let mut words: Vec<u32> = vec![0, 0xffff_ffff, 0x3ffff, 0x40000, 0x8000_0000];
